@@ -3,6 +3,8 @@
 d=$1; p=$2; t=${3:-quick}
 cd /repo && git diff --quiet || { echo "/repo not clean"; exit 2; }
 git -C /repo apply "$d/patch.diff" || { echo "patch does not apply"; exit 2; }
+cp /verif/evidence/$p.json /tmp/ev.$p.$$ 2>/dev/null
 cd /verif && bin/check $p $t; rc=$?
+cp /tmp/ev.$p.$$ /verif/evidence/$p.json 2>/dev/null; rm -f /tmp/ev.$p.$$
 git -C /repo checkout -- . ; git -C /repo clean -fdq pfcpiface
 echo "exit=$rc"
